@@ -637,6 +637,10 @@ class Nodes:
         if isinstance(value, NodeCoords):
             return Nodes.typed_value(value.node)
 
+        if isinstance(value, ScalarBoolean):
+            # ruamel.yaml wraps an anchored Boolean in an int subclass
+            return bool(value)
+
         cased_value = value
         lower_value = str(value).lower()
 
